@@ -221,4 +221,111 @@ theorem update_sound (u : Update) (hkw : u.setKw.equal "set" = true) (b0 : Tok) 
     rw [updateStmt_qualified L fuel _ h1 h2 h3, h4] at hs
     exact updateTail_sound L fuel _ _ u.setKw u.ops b0 r0 hkw hb0 hA.2.2.2.2 hf4 hs
 
+/-! ### `SET c = c2 ± <integer | ?>`: counter updates and the ambiguous column-plus-marker form -/
+
+theorem counter_op (L : Lexer) (fuel : Nat) (s : LS) (p : Nat) (c c2 : Ident) (op : Nat) (arg : Tok) (rest : List Tok)
+    (hop : op = tkAdd ∨ op = tkSub) (harg : arg.kind = tkInteger ∨ arg.kind = tkQMark)
+    (hA : At L p (idt c :: k tkEqual :: idt c2 :: k op :: arg :: rest)) (hF : Fed s p (idt c)) :
+    (parseUpdateOp L fuel s tkIdentifier).1.idem = false := by
+  have h1 := nextT_fst hA.2 hF.1
+  have hp1 := nextT_p hA.2 hF.1
+  have c1 := nextT_congr L (mark (nextT L s).2) (nextT L s).2 rfl
+  have hmaybe : (nextT L (mark (nextT L s).2)).1 = tkIdentifier := by rw [c1.1]; exact nextT_fst hA.2.2 hp1
+  have hp2 : (nextT L (mark (nextT L s).2)).2.p = p + 3 := by rw [c1.2]; exact nextT_p hA.2.2 hp1
+  have hop2 : (nextT L (nextT L (mark (nextT L s).2)).2).1 = op := nextT_fst hA.2.2.2 hp2
+  have hp3 : (nextT L (nextT L (mark (nextT L s).2)).2).2.p = p + 4 := nextT_p hA.2.2.2 hp2
+  have harg2 : (nextT L (nextT L (nextT L (mark (nextT L s).2)).2).2).1 = arg.kind := nextT_fst hA.2.2.2.2 hp3
+  unfold parseUpdateOp
+  simp only [ne_eq, not_true_eq_false, ↓reduceIte]
+  generalize nextT L s = o1 at h1 hmaybe hop2 harg2 ⊢
+  obtain ⟨t1, s1⟩ := o1
+  simp only at h1 hmaybe hop2 harg2 ⊢
+  subst h1
+  simp only [k, ↓reduceIte]
+  generalize nextT L (mark s1) = o2 at hmaybe hop2 harg2 ⊢
+  obtain ⟨mb, s3⟩ := o2
+  simp only at hmaybe hop2 harg2 ⊢
+  subst hmaybe
+  generalize nextT L s3 = o3 at hop2 harg2 ⊢
+  obtain ⟨ma, s4⟩ := o3
+  simp only at hop2 harg2 ⊢
+  subst hop2
+  have hcond : (tkIdentifier = tkIdentifier ∧ (ma = tkAdd ∨ ma = tkSub)) := ⟨rfl, hop⟩
+  simp only [hcond, and_self, ↓reduceIte, true_and]
+  generalize nextT L s4 = o4 at harg2 ⊢
+  obtain ⟨t5, s5⟩ := o4
+  simp only at harg2 ⊢
+  subst harg2
+  cases fuel with
+  | zero => simp [parseTerm, R.fuel]
+  | succ n =>
+    rcases harg with h | h <;> rw [h]
+    · rw [pt_int]; simp [isIdempotentUpdateOpTermType]
+    · rw [pt_q]; simp [isIdempotentUpdateOpTermType]
+
+theorem updateTail_counter (L : Lexer) (fuel : Nat) (s : LS) (p : Nat) (kw c c2 : Ident) (op : Nat) (arg : Tok) (rest : List Tok)
+    (hkw : kw.equal "set" = true) (hop : op = tkAdd ∨ op = tkSub) (harg : arg.kind = tkInteger ∨ arg.kind = tkQMark)
+    (hA : At L p (idt kw :: idt c :: k tkEqual :: idt c2 :: k op :: arg :: rest)) (hF : Fed s p (idt kw)) :
+    (updateTail L fuel s tkIdentifier).1.idem = false := by
+  have hid : s.id = kw := hF.2 rfl
+  have hset : isUnreservedKeyword s tkIdentifier "set" = true := by simp [isUnreservedKeyword, hid, hkw]
+  have h1 := nextT_fst hA.2 hF.1
+  have hf1 := nextT_fed hA.2 hF.1
+  unfold updateTail
+  simp only [parseUsingClause, show tkIdentifier ≠ tkUsing by decide, ↓reduceIte, Bool.false_eq_true, hset, Bool.not_true]
+  generalize nextT L s = o1 at h1 hf1 ⊢
+  obtain ⟨t1, s1⟩ := o1
+  simp only at h1 hf1 ⊢
+  subst h1
+  cases fuel with
+  | zero => simp [updateOpsLoop, R.fuel]
+  | succ n =>
+    have hop' := counter_op L n s1 (p + 1) c c2 op arg rest hop harg hA.2 hf1
+    unfold updateOpsLoop
+    simp only [show tkIdentifier ≠ tkIf by decide, show tkIdentifier ≠ tkWhere by decide, show isDMLTerminator tkIdentifier = false by decide,
+      ne_eq, not_false_eq_true, Bool.not_false, and_self, ↓reduceIte]
+    generalize parseUpdateOp L n s1 tkIdentifier = o at hop' ⊢
+    obtain ⟨r, s'⟩ := o
+    simp only at hop' ⊢
+    simp [hop']
+
+theorem classify_update_fwd (L : Lexer) (fuel : Nat) (h : (nextT L { p := 0 }).1 = tkUpdate)
+    (hr : (updateStmt L fuel (nextT L { p := 0 }).2).1.idem = false) : (classify L fuel).idem = false := by
+  unfold classify
+  simp only [h, dispatch, tkInsert, tkUpdate, tkSelect, tkUse, tkCreate, tkAlter, tkDrop, tkBegin]
+  generalize updateStmt L fuel (nextT L { p := 0 }).2 = o at hr ⊢
+  obtain ⟨r, t, s'⟩ := o
+  simp only at hr ⊢
+  simp [hr]
+
+theorem counter_update (ks : Option Ident) (table kw c c2 : Ident) (op : Nat) (arg : Tok) (rest : List Tok)
+    (hkw : kw.equal "set" = true) (hop : op = tkAdd ∨ op = tkSub) (harg : arg.kind = tkInteger ∨ arg.kind = tkQMark)
+    (L : Lexer) (fuel : Nat)
+    (hA : At L 0 (k tkUpdate :: renderName ks table (idt kw :: idt c :: k tkEqual :: idt c2 :: k op :: arg :: rest))) :
+    (classify L fuel).idem = false := by
+  have h0 := nextT_fst (s := { p := 0 }) hA rfl
+  have hp0 := nextT_p (s := { p := 0 }) hA rfl
+  apply classify_update_fwd L fuel h0
+  cases ks with
+  | none =>
+    simp only [renderName] at hA
+    have h1 := nextT_fst hA.2 hp0
+    have hp1 := nextT_p hA.2 hp0
+    have h2 := nextT_fst hA.2.2 hp1
+    have hf2 := nextT_fed hA.2.2 hp1
+    rw [updateStmt_plain L fuel _ h1 (by rw [h2]; exact (by decide : tkIdentifier ≠ tkDot)), h2]
+    exact updateTail_counter L fuel _ _ kw c c2 op arg rest hkw hop harg hA.2.2 hf2
+  | some q =>
+    simp only [renderName] at hA
+    have h1 := nextT_fst hA.2 hp0
+    have hp1 := nextT_p hA.2 hp0
+    have h2 := nextT_fst hA.2.2 hp1
+    have hp2 := nextT_p hA.2.2 hp1
+    have h3 := nextT_fst hA.2.2.2 hp2
+    have hp3 := nextT_p hA.2.2.2 hp2
+    have h4 := nextT_fst hA.2.2.2.2 hp3
+    have hf4 := nextT_fed hA.2.2.2.2 hp3
+    rw [updateStmt_qualified L fuel _ h1 h2 h3, h4]
+    exact updateTail_counter L fuel _ _ kw c c2 op arg rest hkw hop harg hA.2.2.2.2 hf4
+
 end CqlVerif.Ast
